@@ -158,8 +158,10 @@ def classify_parser(st):
     if m:
         fn = re.findall(r'&(\w+)', m.group(4) or '')
         return ('row', 'PValue', m.group(2).split('::')[-1], '', fn[-1] if fn else '')
-    if re.match(r'^if\s*\(idMap_\.contains\(', st) or st.startswith('@head if (idMap_.contains('):
+    if re.match(r'^(@head )?if\s*\(idMap_\.contains\(id\)\)$', st):
         return ('check', 'PDupCheck', '', '', '')
+    if st.startswith('throw error::XmlParsingDuplicateId('):
+        return ('check', 'PCheck', '', 'XmlParsingDuplicateId', '')
     if st.startswith('throw ') or re.match(r'^checkChannelType\(', st) or re.match(r'^(auto \w+ = )?checkFormat\(', st):
         return ('check', 'PCheck', '', '', '')
     if 'ChangedIdTraits<' in st or re.match(r'^(addIdReferences|parseIdRef)<', st):
@@ -258,6 +260,37 @@ def gen_xml(repo):
                     rows.append(lit[1:])
             pt[name] = rows
             pb[name] = body
+    # ---- reference resolution (C08): pending tables filled by the element parsers, tables resolved by parse() ----
+    pending = []
+    for name, body in pb.items():
+        for m in re.finditer(r'\b(addOptionalReferences|setOptionalReference)<[\w:]+>\(\s*\w+,\s*"([^"]*)",\s*\w+,\s*(\w+),', body):
+            pending.append((name, m.group(2), m.group(3)))
+    mparse = re.search(r'DocumentParser::parse\(\)\s*\{', psrc)
+    parse_body = ''
+    if mparse:
+        i = mparse.end()
+        depth = 1
+        while i < len(psrc) and depth:
+            depth += {'{': 1, '}': -1}.get(psrc[i], 0)
+            i += 1
+        parse_body = psrc[mparse.end():i]
+    else:
+        problems.append('parser: DocumentParser::parse() not found')
+    resolved = re.findall(r'\bresolve\w*\(\s*(\w+)\s*\)', parse_body)
+    for m in re.finditer(r'for\s*\([^;)]*:\s*(\w+)\)\s*\{', parse_body):
+        j = m.end()
+        depth = 1
+        while j < len(parse_body) and depth:
+            depth += {'{': 1, '}': -1}.get(parse_body[j], 0)
+            j += 1
+        if 'throw error::XmlParsingUnresolvedReference' in parse_body[m.end():j]:
+            resolved.append(m.group(1))      # hand-written resolution loop (complementary objects)
+    dispatched = re.findall(r'add\((parse\w+)\(node\)\)', parse_body)
+    hdr = strip_comments(read(repo, 'include/adm/private/document_parser.hpp'))
+    resolvers = []
+    for rn in ('resolveReferences', 'resolveReference', 'resolveTrackUidReferences'):
+        bodies = [b for n, b in functions(hdr, rn) + functions(psrc, rn) if n == rn]
+        resolvers.append((rn, bool(bodies) and all('throw error::XmlParsingUnresolvedReference' in b for b in bodies)))
     import xml_pairs
     wclosed = closure_rows(wt, wb, stop={x for a, _b in xml_pairs.ALL_GROUPS for x in a})
     pclosed = closure_rows(pt, pb, stop={x for _a, b in xml_pairs.ALL_GROUPS for x in b})
@@ -273,8 +306,16 @@ def gen_xml(repo):
     lines.append(';\n'.join('  (%s, %s)' % (coq_str(n), rows_coq(r)) for n, r in wtabs))
     lines += ['].', '', 'Definition parser_tables : list (list N * list prow) := [']
     lines.append(';\n'.join('  (%s, %s)' % (coq_str(n), rows_coq(r)) for n, r in ptabs))
-    lines += ['].', '', 'Definition xml_problems : list (list N) := [%s].' % '; '.join(coq_str(p) for p in problems), '']
-    stats = dict(counts, writer_functions=len(wtabs), parser_functions=len(ptabs), problems=problems,
+    lines += ['].', '', '(* (parse function, IDRef element name, pending table) *)',
+              'Definition pending_tables : list (list N * list N * list N) := [%s].'
+              % '; '.join('(%s, %s, %s)' % (coq_str(a), coq_str(b), coq_str(c)) for a, b, c in pending),
+              'Definition resolved_tables : list (list N) := [%s].' % '; '.join(coq_str(t) for t in resolved),
+              '(* resolver function, and whether every definition of it throws XmlParsingUnresolvedReference *)',
+              'Definition resolvers : list (list N * bool) := [%s].' % '; '.join('(%s, %s)' % (coq_str(n), 'true' if b else 'false') for n, b in resolvers),
+              '(* element parsers dispatched by DocumentParser::parse() *)',
+              'Definition dispatched_parsers : list (list N) := [%s].' % '; '.join(coq_str(t) for t in dispatched), '']
+    lines += ['Definition xml_problems : list (list N) := [%s].' % '; '.join(coq_str(p) for p in problems), '']
+    stats = dict(counts, pending_tables=len(pending), resolved_tables=len(resolved), dispatched=len(dispatched), writer_functions=len(wtabs), parser_functions=len(ptabs), problems=problems,
                  writer_names=[n for n, _ in wtabs], parser_names=[n for n, _ in ptabs])
     return '\n'.join(lines), stats
 
